@@ -85,7 +85,21 @@ pub fn c15_specs(thorough: bool) -> Vec<Op> {
     let elems: &[u8] = &[0, 1, 3, 8, 24, 32];
     let pushes: &[u8] = if thorough { &[0, 1, 2, 3, 5, 9, 17, 33, 45, 70] } else { &[0, 1, 3, 17, 45] };
     let caps: &[u8] = if thorough { &[255, 0, 1, 3, 40] } else { &[255, 3, 40] };
-    let extras = [MutExtra::None, MutExtra::Reserve(50), MutExtra::ReserveExact(50), MutExtra::ExtendUnder(5), MutExtra::ExtendOver(5)];
+    let extras = [MutExtra::None, MutExtra::Reserve(50), MutExtra::ReserveExact(50), MutExtra::ExtendUnder(5), MutExtra::ExtendOver(5), MutExtra::WithinCopy];
+    // the other constructors (cap codes 251..=254), three elements each, then pushes as usual
+    for kind in [MutKind::Vec, MutKind::VecRev] {
+        for &elem in elems {
+            for cap in 251..=254u8 {
+                for &p in if thorough { &[0u8, 1, 3, 17, 45][..] } else { &[0u8, 3, 45][..] } {
+                    for extra in [MutExtra::None, MutExtra::Reserve(50)] {
+                        for end in [MutEnd::Drop, MutEnd::Unwind, MutEnd::Finalise, MutEnd::FinaliseBoxed] {
+                            v.push(Op::MutColl(MutSpec { kind, elem, cap, pushes: p, extra, end }));
+                        }
+                    }
+                }
+            }
+        }
+    }
     for kind in [MutKind::Vec, MutKind::VecRev] {
         for &elem in elems {
             for &cap in caps {
@@ -99,9 +113,10 @@ pub fn c15_specs(thorough: bool) -> Vec<Op> {
             }
         }
     }
-    for &cap in caps {
+    let str_ctor_caps: &[u8] = &[250, 251, 252, 253, 254];
+    for &cap in caps.iter().chain(str_ctor_caps.iter()) {
         for &p in pushes {
-            for extra in [MutExtra::None, MutExtra::Reserve(50), MutExtra::ReserveExact(50)] {
+            for extra in [MutExtra::None, MutExtra::Reserve(50), MutExtra::ReserveExact(50), MutExtra::WithinCopy] {
                 for end in [MutEnd::Drop, MutEnd::Unwind, MutEnd::Finalise, MutEnd::FinaliseBoxed, MutEnd::FinaliseCstr] {
                     v.push(Op::MutColl(MutSpec { kind: MutKind::Str, elem: 1, cap, pushes: p, extra, end }));
                 }
@@ -505,6 +520,8 @@ pub fn spaces_mode<'a>(prop: &'a str, mode: Mode, deadline: Instant, threads: us
                 Op::Dealloc { sel: Sel::Newest },
                 Op::Enter(Region::Scoped),
                 Op::Enter(Region::Claim),
+                // by_value on an arena that has no chunk yet creates the first chunk: it must end up owned by the arena
+                Op::Enter(Region::ByValue),
                 Op::Exit,
                 Op::ExitUnwind,
                 Op::Reset,
